@@ -162,7 +162,7 @@ def check_prefixes(t, ctx):
 def corruptions(draw):
     t = draw(txs())
     enc = bytearray(t.ser(True))
-    kind = draw(st.sampled_from(['flagbyte', 'marker-on-legacy', 'byte', 'count', 'noncanonical-cs', 'all-empty-witness', 'insert', 'delete']))
+    kind = draw(st.sampled_from(['flagbyte', 'marker-on-legacy', 'byte', 'count', 'noncanonical-cs', 'all-empty-witness', 'insert', 'delete', 'trailing']))
     if kind == 'flagbyte' and len(enc) > 6 and enc[4] == 0:
         enc[5] = draw(st.sampled_from([0x00, 0x02, 0x03, 0x80, 0xff, 0x81]))
     elif kind == 'marker-on-legacy':
@@ -183,6 +183,8 @@ def corruptions(draw):
             v['wit'] = []
         body = t.ser(False)
         enc = bytearray(body[:4] + b'\x00\x01' + body[4:-4] + b'\x00' * len(t.vin) + body[-4:])
+    elif kind == 'trailing':
+        enc += draw(st.one_of(st.sampled_from([b'\x00', b'\x00\xff', b'\x00' * 4, bytes(enc[:10])]), st.binary(min_size=1, max_size=40)))
     elif kind == 'insert' and enc:
         i = draw(st.integers(0, min(len(enc), 60)))
         enc[i:i] = bytes([draw(st.integers(0, 255))])
@@ -207,14 +209,18 @@ def check_corruption(c, ctx):
         return
     if 'crash' in r or 'exit' in r:
         raise Violation(case, 'decoder died on a structurally corrupted transaction: %r' % r, observed=r)
-    if ref is None:
+    if ref is not None and ref.consumed < len(enc):
+        # a complete transaction followed by more bytes: not the encoding of a transaction (re-serialising could not reproduce it)
+        if r.get('ok'):
+            raise Violation(case, 'a transaction followed by %d more byte(s) was accepted (only a prefix of the input was decoded)' % (len(enc) - ref.consumed), observed=str(r)[:300])
+        ctx.count('trailing-bytes-rejected:' + kind)
+    elif ref is None:
         if r.get('ok'):
             raise Violation(case, 'structurally invalid encoding (%s) accepted' % kind, observed=str(r)[:400])
         ctx.count('corruption-rejected:' + kind)
     else:
         if not r.get('ok'):
             raise Violation(case, 'encoding that the reference decodes (%s) was rejected: %s' % (kind, r.get('exc')), observed=str(r)[:300])
-        # compare on the consumed part (trailing bytes are not asserted either way)
         compare_accept(case, enc.hex(), r, ref)
         ctx.count('corruption-still-valid:' + kind)
 
@@ -371,7 +377,7 @@ def run(tier, t0):
     m = core.parallel(PID, tasks)
     return core.finish(PID, tier, m, RULE, t0, min_nontrivial=3000 if tier == 'quick' else 100000,
                        assumptions=['reference codec vf/ref/tx.py (BIP144 as Core deserialises: a 00 after the version is the segwit marker)', 'OpenSSL SHA-256 via hashlib',
-                                    'trailing bytes after a complete encoding are not asserted either way; boundary amount forms (exponents, signs) only need to be exact when accepted'])
+                                    'boundary amount forms (exponents, signs) only need to be exact when accepted'])
 
 
 def replay(rec):
